@@ -883,3 +883,75 @@ Definition rexec_ext_fixed (s : rstmt) (m : rstate) : rstate :=
   end.
 Definition rbuild_ext_fixed (prog : list rstmt) : rstate := fold_left (fun m s => rexec_ext_fixed s m) prog rs0.
 
+(* ------------------------------------------------------------------------------------------ *)
+(* Behaviour AFTER the repairs fixes/routes_fix2/routes_gcc_len.patch and routes_empty_domain_read.patch
+   (default of the driver; SELEN_ROUTES_FIX2_PREFIX=1 selects call_ext_fixed, the tree before them):
+   * Model::gcc records an InvalidConstraint validation error when |values| <> |counts| (and still posts the
+     zipped pairs); every solving call returns it.  Before: silent truncation (class kf_gcc_len, gcc_len_refuted).
+   * the posting methods that derive a result variable from their operands' bounds (add, sub, mul, modulo, abs,
+     min, max, sum / sum_iter, array_int_minimum / maximum, functions::element, functions::cumulative through
+     Model::add) ask Model::operand_bounds, which is None for an operand whose integer domain is EMPTY; the result
+     variable then gets the empty domain (Model::empty_result_var = new_var_unchecked(1, 0)), the propagator is
+     posted as usual and validation reports InvalidDomain from the solving call.  Before: SparseSet::min()'s
+     debug assertion (rpanic; empty_domain_read_panics), stale bounds in release builds. *)
+Definition result_var_opt (b : option (Z * Z)) (mk : nat -> rdesc) (st : rlst) : nat * rlst :=
+  match b with
+  | Some b => result_var b mk st
+  | None => let (r, st) := rnew_var [] st in (r, rpush (mk r) st)
+  end.
+Definition ret_result2 (b : option (Z * Z)) (mk : nat -> rdesc) (m : rstate) : rstate :=
+  let (r, st) := result_var_opt b mk (rst m) in give r (with_st m st).
+Definition end_bounds (s : store) (v : nat) (d : Z) : option (Z * Z) :=
+  match obounds s (OV v) with Some b => Some (add_bounds b (d, d)) | None => None end.
+Definition cum_pair_fix2 (si sj : nat) (di dj : Z) (st : rlst) : rlst :=
+  let (ei, st) := result_var_opt (end_bounds (fst st) si di) (fun r => PB (PAdd (VVar si) (VConst di) r)) st in
+  let (ej, st) := result_var_opt (end_bounds (fst st) sj dj) (fun r => PB (PAdd (VVar sj) (VConst dj) r)) st in
+  let (b1, st) := rnew_var (drange 0 1) st in
+  let st := rpush (PReif OLe ei sj b1) st in
+  let (b2, st) := rnew_var (drange 0 1) st in
+  let st := rpush (PReif OLe ej si b2) st in
+  let (br, st) := st_bor [b1; b2] st in
+  rpush (eq_one br) st.
+Fixpoint cum_inner_fix2 (si : nat) (di ei : Z) (rest : list (nat * (Z * Z))) (cap : Z) (st : rlst) : rlst :=
+  match rest with
+  | [] => st
+  | (sj, (dj, ej)) :: r =>
+    cum_inner_fix2 si di ei r cap (if cap <? ei + ej then cum_pair_fix2 si sj di dj st else st)
+  end.
+Fixpoint cum_outer_fix2 (tasks : list (nat * (Z * Z))) (cap : Z) (st : rlst) : rlst :=
+  match tasks with
+  | [] => st
+  | (si, (di, ei)) :: r => cum_outer_fix2 r cap (cum_inner_fix2 si di ei r cap st)
+  end.
+Definition minmax_bounds (f : Z * Z -> list (Z * Z) -> Z * Z) (s : store) (xs : list nat) : option (Z * Z) :=
+  do bs <- var_bounds s xs; match bs with b0 :: br => Some (f b0 br) | [] => None end.
+Definition call_fix2 (r : route) (m : rstate) : rstate :=
+  let s := fst (rst m) in
+  match r with
+  | RAdd x y => ret_result2 (bin_bounds add_bounds s x y) (fun r => PB (PAdd (oview x) (oview y) r)) m
+  | RSub x y => ret_result2 (bin_bounds sub_bounds s x y) (fun r => PB (p_sub (oview x) (oview y) r)) m
+  | RMul x y => ret_result2 (bin_bounds mul_bounds s x y) (fun r => PB (PMul (oview x) (oview y) r)) m
+  | RMod x y => ret_result2 (bin_bounds mod_bounds s x y) (fun r => PB (PMod (oview x) (oview y) r)) m
+  | RAbs x => ret_result2 (do bx <- obounds s x; Some (abs_bounds bx)) (fun r => PAbs (oview x) r) m
+  | RMin ((_ :: _) as xs) | RArrMin ((_ :: _) as xs) => ret_result2 (minmax_bounds min_bounds s xs) (PMin xs) m
+  | RMax ((_ :: _) as xs) | RArrMax ((_ :: _) as xs) => ret_result2 (minmax_bounds max_bounds s xs) (PMax xs) m
+  | RSum xs => ret_result2 (do bs <- var_bounds s xs; Some (sum_bounds_l bs)) (PSum (map VVar xs)) m
+  | RSumIter xs => ret_result2 (do bs <- opnd_bounds s xs; Some (sum_bounds_l bs)) (PSum (map oview xs)) m
+  | RFElement arr i => ret_result2 (felement_bounds_fixed s arr) (PElement arr i) m
+  | RCumulative starts durs dems cap =>
+    if Nat.eqb (length starts) (length durs) && Nat.eqb (length starts) (length dems)
+    then with_st m (cum_outer_fix2 (combine starts (combine durs dems)) cap (rst m))
+    else m
+  | RGcc xs vals cnts =>
+    let m := if Nat.eqb (length vals) (length cnts) then m else verr m in
+    with_st m (st_gcc xs vals cnts (rst m))
+  | _ => call_ext_fixed r m
+  end.
+Definition rexec_fix2 (s : rstmt) (m : rstate) : rstate :=
+  if rpanic m || rcallerr m then m else
+  match s with
+  | SB b => exec_base b m
+  | SCall r => call_fix2 (rn_route (ruv m) r) m
+  | SArr dims lo hi => exec_arr dims lo hi m
+  end.
+Definition rbuild_fix2 (prog : list rstmt) : rstate := fold_left (fun m s => rexec_fix2 s m) prog rs0.
